@@ -895,6 +895,55 @@ func immutability() {
 	R.Sample("immutability", map[string]any{"constructor": ctors[4].name, "steps": "build key; mutate the point passed in; mutate every []byte / *Scalar / *Point returned by every accessor (enumerated by reflection); all observations (accessors, RFC 6979 signature, ECDH, Verify) must be unchanged"})
 }
 
+// constructors: a constructor that must fail returns no object; whatever it returns is a valid object.
+func constructors() {
+	n := 0
+	bad := func(name string, obj any, err error) {
+		n++
+		R.T(1)
+		isNil := obj == nil || reflect.ValueOf(obj).IsNil()
+		if err == nil || !isNil {
+			R.Fail("constructors/"+name, "misc", map[string]any{"constructor": name, "what": "a call that must fail returned an object (or no error)"}, nil)
+		}
+	}
+	one := big.NewInt(1)
+	// RecoverPublicKey with s*R = e*G: Q is the point at infinity
+	for _, k := range []*big.Int{one, big.NewInt(2), big.NewInt(0x1234567)} {
+		rp := ref.BaseMul(k)
+		r := ref.ModN(rp.X)
+		for _, s := range []*big.Int{one, big.NewInt(7), ref.HalfN} {
+			e := ref.ZnMul(s, k)
+			q, err := secec.RecoverPublicKey(ref.B32(e), lib.MkSC(r), lib.MkSC(s), byte(rp.Y.Bit(0)))
+			bad("RecoverPublicKey(s*R = e*G)", q, err)
+			q2, err2 := secec.RecoverPublicKey(ref.B32(e), lib.MkSC(r), lib.MkSC(ref.ZnNeg(s)), byte(rp.Y.Bit(0)^1))
+			bad("RecoverPublicKey(-s*(-R) = e*G)", q2, err2)
+		}
+	}
+	q, err := secec.NewPublicKeyFromPoint(secp256k1.NewIdentityPoint())
+	bad("NewPublicKeyFromPoint(identity)", q, err)
+	q, err = secec.NewPublicKeyFromPoint(lib.MkPTRep(ref.Infinity(), big.NewInt(5)))
+	bad("NewPublicKeyFromPoint(identity, Y != 1)", q, err)
+	q, err = secec.NewPublicKey([]byte{0})
+	bad("NewPublicKey(00)", q, err)
+	q, err = secec.ParseASN1PublicKey(ref.SPKIBuild([]byte{0}))
+	bad("ParseASN1PublicKey(identity)", q, err)
+	sq, err := bitcoin.NewSchnorrPublicKeyFromPoint(secp256k1.NewIdentityPoint())
+	bad("NewSchnorrPublicKeyFromPoint(identity)", sq, err)
+	pk, err := secec.NewPrivateKeyFromScalar(secp256k1.NewScalar())
+	bad("NewPrivateKeyFromScalar(0)", pk, err)
+	pk, err = secec.NewPrivateKey(make([]byte, 32))
+	bad("NewPrivateKey(0)", pk, err)
+	pk, err = secec.NewPrivateKey(ref.B32(ref.N))
+	bad("NewPrivateKey(n)", pk, err)
+	spk, err := bitcoin.NewSchnorrPrivateKey(ref.B32(ref.N))
+	bad("NewSchnorrPrivateKey(n)", spk, err)
+	p, err := secp256k1.NewPointFromCoords(ref.A32(big.NewInt(5)), ref.A32(big.NewInt(1)))
+	bad("NewPointFromCoords(off curve)", p, err)
+	p, err = secp256k1.RecoverPoint(lib.MkSC(big.NewInt(5)), 0)
+	bad("RecoverPoint(non x-coordinate)", p, err)
+	R.Class("constructors that must fail and return no object", int64(n))
+}
+
 func trunc(s string) string {
 	if len(s) > 400 {
 		return s[:400] + "..."
@@ -918,6 +967,7 @@ func main() {
 	R.Sample("operation instance", map[string]any{"name": opinsts[len(opinsts)/3].name, "meaning": "Pn / Sn are pool slots; the same slot in several positions is the aliasing"})
 	uninitMatrix()
 	immutability()
+	constructors()
 	R.Expect("bfs/panic leaves (uninitialised operand refused)", "uninitialised-operand matrix cells", "immutability matrix cells (constructor x mutated value)")
 	R.Finish()
 }
